@@ -30,6 +30,8 @@ class GenError(Exception):
 def payload(size: int, seed: int) -> bytes:
     """Deterministic payload with line structure (for iteration) and moderate compressibility."""
     rng = random.Random(seed * 7919 + size)
+    if size > 200000:                    # LARGE class (> buffer sizes, > 1 MiB): incompressible, so that the encoded
+        return rng.randbytes(size)       # body on the wire is large too
     out = bytearray()
     words = [b"alpha", b"beta", b"\n", b"gamma\n", b"\x00\xff", b"delta-delta-delta", b"\r\n", b"0", b"e" * 40]
     while len(out) < size:
